@@ -147,6 +147,61 @@ def parseCols (tok : String) : Option (List String × List String) := do
 
 def implOk (impl : List String) : Bool := impl.head? == some "ok"
 
+/-- EntityWithSourcesHDF5::getSource(name_or_id): a name is resolved through the block's source tree to the first source
+    of that name which is attached here -/
+def getAttachedSource (s : Store) (holder : Handle) (key : String) : Option ObjId :=
+  let id := if looksLikeUUID key then key else
+    match (allSources s holder.blk).find? fun o => nameOf s o == key &&
+        (match s.optGroup holder.obj "sources" with | some c => s.hasGroup c (idOf s o) | none => false) with
+    | some o => idOf s o
+    | none => key
+  match s.optGroup holder.obj "sources" with
+  | some c => if s.hasGroup c id then s.child? c id else none
+  | none => none
+
+/-- the harness op `xcheck`: every way of reaching every child of one container -/
+def xcheck (s : Store) (kind : String) (parent : Option Handle) : Option (List String) := do
+  let c ← containerOf s kind parent
+  let n := countIn s c
+  let lookup (k : String) : Option (Option ObjId) :=
+    if kind == "R" then (match parent with | some p => if k.isEmpty then none else findFeature s p k | none => none)
+    else findByKey s kind parent k
+  let rows ← (List.range n).mapM fun i =>
+    match nthChild s c i with
+    | none => some ["|", toString i, "~"]
+    | some o => do
+      let id := idOf s o
+      let name := if kind == "R" then id else nameOf s o
+      let byName ← lookup name
+      let byId ← lookup id
+      let hh ← hasByHandle s kind parent (some (mkHandle kind parent o))
+      let tok (r : Option ObjId) : String := match r with | some x => idOf s x | none => "~"
+      let b (x : Bool) : String := if x then "1" else "0"
+      some ["|", toString i, id, fmtStr name, tok byName, tok byId, b byName.isSome, b byId.isSome, b hh]
+  pure (["ok", toString n, fmtList (linkedIds s c)] ++ rows.flatten)
+
+/-- the harness op `xlinks`: the same for link containers (named by the target's id) -/
+def xlinks (s : Store) (rel : String) (h : Handle) : Option (List String) := do
+  let cname := if rel == "ref" then "references" else if rel == "src" then "sources" else groupContainer (rel.drop 1).toString
+  let c := s.optGroup h.obj cname
+  let n := countIn s c
+  let get (k : String) : Option ObjId :=
+    if rel == "ref" then getReference s h.obj h.blk k
+    else if rel == "src" then getAttachedSource s h k
+    else let (nm, i) := identOfString k; grpFind s h.obj (rel.drop 1).toString nm i
+  let has (k : String) : Bool :=
+    if rel == "src" then (match c with | some c => s.hasGroup c k | none => false) else (get k).isSome
+  let rows := (List.range n).map fun i =>
+    match nthChild s c i with
+    | none => ["|", toString i, "~", "x"]
+    | some o =>
+      let id := idOf s o
+      let name := nameOf s o
+      let tok (r : Option ObjId) : String := match r with | some x => idOf s x | none => "~"
+      let b (x : Bool) : String := if x then "1" else "0"
+      ["|", toString i, id, fmtStr name, tok (get name), tok (get id), b (has name), b (has id)]
+  pure (["ok", toString n, fmtList (linkedIds s c)] ++ rows.flatten)
+
 /-- one op on the model: new state and the prediction -/
 def step (ms : MState) (op : String) (args impl : List String) : MState × Pred :=
   let s := ms.store
@@ -266,7 +321,7 @@ def step (ms : MState) (op : String) (args impl : List String) : MState × Pred 
   | "valid", slot :: _ =>
     match slot? ms slot with
     | some none => (ms, .exact ["ok", "none"])
-    | some (some h) => (ms, b01 (s.refCount h.obj > 0))
+    | some (some h) => (ms, b01 (isValidEntity s h.obj))
     | none => fail "empty slot"
   | "drop", [slot] => ({ ms with slots := ms.slots.filter (·.1 != slot) }, .exact ["ok"])
   | "idof", [slot] =>
@@ -423,7 +478,7 @@ def step (ms : MState) (op : String) (args impl : List String) : MState × Pred 
           else if how == "handle" then
             (match th with
              | none => unit (unsetLink s h.obj "extents")
-             | some t => if s.refCount t.obj == 0 then (ms, .err "UninitializedEntity") else unit (setExtents s h.obj h.blk (idOf s t.obj)))
+             | some t => if !isValidEntity s t.obj then (ms, .err "UninitializedEntity") else unit (setExtents s h.obj h.blk (idOf s t.obj)))
           else if k.isEmpty then (ms, .err "EmptyString") else unit (setExtents s h.obj h.blk k)
         else if field == "featdata" then
           if how == "handle" then
@@ -473,7 +528,18 @@ def step (ms : MState) (op : String) (args impl : List String) : MState × Pred 
     | some (some h) => ({ ms with store := if implOk impl then s.setAttr h.obj "ds:shape" "?" else s }, .skip)
     | _ => (ms, .skip)
   | "mkpv", _ => fail "createProperty(name, values)"
-  | "xcheck", _ | "xlinks", _ => (ms, .skip)
+  | "xcheck", [kind, par] =>
+    match parentOf ms par with
+    | some parent => (match xcheck s kind parent with
+      | some toks => (ms, .exact toks)
+      | none => fail "xcheck outside the modelled lookups")
+    | none => fail "xcheck through an uninitialised parent"
+  | "xlinks", [rel, holder] =>
+    match slot? ms holder with
+    | some (some h) => (match xlinks s rel h with
+      | some toks => (ms, .exact toks)
+      | none => fail "xlinks")
+    | _ => fail "xlinks through an uninitialised holder"
   | "dump", _ | "dumpx", _ => (ms, .skip)      -- compared by the caller
   | _, _ => fail s!"op {op}"
 
